@@ -19,3 +19,4 @@ INVARIANT T_BookStd
 INVARIANT T_BookPq
 INVARIANT T_BookRanges
 CHECK_DEADLOCK FALSE
+INVARIANT T_BookDecision
